@@ -2402,6 +2402,9 @@ pub fn generate(family: &str, seed: u64, tier: &str, extra: &[String], w: &mut d
         }
         "c03" => {
             emit_dict(o.w, &d0);
+            // the command-code and application-id tables, enumerated on the code and compared with the model's
+            o.case("tables");
+            o.line("tables");
             gen_c03(&mut o, &mut r, &d0, tier);
         }
         "c17" => gen_c17(&mut o, &mut r, tier),
